@@ -29,7 +29,7 @@ func init() { register("C05", c05) }
 // ---------------------------------------------------------------------------------------------
 // generator: comments in every attachment field
 
-var c05Texts = []string{" c", " note", "", " a b ", " x;y", " $(x) `y`", " trailing\t", "!", " ## ", " é\u00a0", " w\u2003 ", " 'q", " \"dq", " )", " }", " fi", " a\tb", " \\ x"}
+var c05Texts = []string{" c", " note", "", " a b ", " x;y", " $(x) `y`", " trailing\t", "!", " ## ", " é\u00a0", " w\u2003 ", " 'q", " \"dq", " )", " }", " fi", " a\tb", " \\ x", " \\"}
 
 type c05Gen struct {
 	n int
@@ -1011,9 +1011,6 @@ func c05Regions(o c05Opts, f *syntax.File) []string {
 			}
 		case *syntax.Comment:
 			t := c05Trim(n.Text)
-			if strings.HasSuffix(n.Text, "\\\n") || strings.HasSuffix(t, "\\") {
-				set("comment-ends-in-backslash") // F4
-			}
 			if strings.ContainsAny(t, "\f\v") && !strings.Contains(t, "\t") {
 				set("formfeed-in-comment") // F9
 			}
@@ -1139,7 +1136,7 @@ func c05TieSkip(o c05Opts, f *syntax.File, d *c05Dumper) string {
 	}
 	for _, ex := range c05Regions(o, f) {
 		switch ex {
-		case "comment-ends-in-backslash", "formfeed-in-comment", "comment-after-bare-time-coproc",
+		case "formfeed-in-comment", "comment-after-bare-time-coproc",
 			"empty-case-comment-into-heredoc", "tab-in-dash-heredoc-comment", "tab-in-backquote-comment",
 			"single-for-name-comment", "heredoc-then-test-clause":
 			return ex
